@@ -228,6 +228,26 @@ def build_matrix():
       lambda: SingleInterval(3, 9, P, chrom_noseq()).extract_sequence())
     E("CompoundInterval.extract_sequence/parent/without-sequence", True, "same", lambda: CompoundInterval([3, 12], [9, 18], M, chrom_noseq()).extract_sequence())
     mp = "require_parents_equal_except_location: 'raise MismatchedParentException'"
+    # parents with the same id whose sequences have the same length and the same ends and differ somewhere in the middle - at several
+    # sizes up to chromosome scale (a comparison of sequences is a comparison of every base)
+    _twins = {}
+
+    def twin_parents(n):
+        if n not in _twins:
+            unit = "ACGTTGCAAC"
+            a = (unit * (n // len(unit) + 1))[:n]
+            b = a[: n // 2] + ("C" if a[n // 2] != "C" else "G") + a[n // 2 + 1:]
+            _twins[n] = (Parent(id="chrL", sequence=Sequence(a, Alphabet.NT_STRICT, id="chrL", type="chromosome")),
+                         Parent(id="chrL", sequence=Sequence(b, Alphabet.NT_STRICT, id="chrL", type="chromosome")))
+        return _twins[n]
+
+    for n in (64, 5000, 70000, (1 << 20) + 7):
+        E(f"SingleInterval.union/other/parent-sequence-differs-in-the-middle-{n}", True, mp,
+          lambda n=n: SingleInterval(3, 9, P, twin_parents(n)[0]).union(SingleInterval(4, 14, P, twin_parents(n)[1])))
+        E(f"SingleInterval.distance_to/other/parent-sequence-differs-in-the-middle-{n}", True, mp,
+          lambda n=n: SingleInterval(3, 9, P, twin_parents(n)[0]).distance_to(SingleInterval(20, 24, P, twin_parents(n)[1])))
+        E(f"SingleInterval.intersection/other/parent-sequence-differs-in-the-middle-strict-{n}", True, "strict_parent_compare=True: " + mp,
+          lambda n=n: SingleInterval(3, 9, P, twin_parents(n)[0]).intersection(SingleInterval(4, 14, P, twin_parents(n)[1]), strict_parent_compare=True))
     for cls_name, mk in (("SingleInterval", lambda p: SingleInterval(3, 9, P, p)), ("CompoundInterval", lambda p: CompoundInterval([3, 12], [6, 15], P, p))):
         other = lambda p: SingleInterval(4, 14, P, p)  # noqa: E731
         E(f"{cls_name}.union/other/parent-id-mismatch", True, mp, lambda mk=mk: mk("chr1").union(other("chr2")))
